@@ -23,7 +23,7 @@ def run(tier):
     gen = printed_json(g, "CASE")
     gen.sort(key=lambda c: json.dumps(c, sort_keys=True))
     rnd = random.Random(seed())
-    exe = targets.get("h_drv")
+    exe = targets.get("h_drv_asan" if tier == "thorough" else "h_drv")   # thorough: ASan/UBSan build
     cfgs, acc = cvtcases.configs(exe)
     linear_opts = dict(cfgs)["mip-linear"]
     cases = []
@@ -58,7 +58,7 @@ def run(tier):
     skipped = 0
     for c, r in zip(cases, runs):
         converted = any(e["e"] == "FinishProblemModificationPhase" for e in r["rec"])
-        if r["hang"] or r["rc"] < 0:
+        if r["hang"] or r["rc"] < 0 or r["rc"] in (97, 98, 99, 134, 139):
             evs.append({"k": "reset", "id": c["id"]}); evs.append({"k": "badjson", "line": 0})
             evs.append({"k": "done", "api": {"nvars": 0, "nobjs": 0, "cons": []}, "hdr": c["hdr"]})
             continue
